@@ -139,6 +139,10 @@ def ill_spec(draw, klass=None):
     spec["amount"] = draw(st.sampled_from([0.1, 0.5, -0.2, 1e-3]))
     spec["nested"] = draw(st.booleans())
     spec["mult"] = draw(st.sampled_from([1, 10]))
+    # custom transaction price as a multiple of the market price (0.0: a position written off / delivered free) and quantity
+    spec["custom_px"] = draw(st.sampled_from([1.01, 0.97, 1.0, 0.0, 0.0]))
+    spec["custom_q"] = draw(st.sampled_from([5.0, -3.0, 1.0]))
+    spec["custom_flat"] = draw(st.booleans())
     return spec
 
 
@@ -282,11 +286,15 @@ def _case_illformed(ctx, spec):
         must_raise(go, "transacting %s at a missing price" % bad)
         return {"nontrivial": True, "labels": labs}
     if klass == "custom_price_no_bidoffer":
-        strat.allocate(abs(amt), child=bad)
+        if spec.get("custom_flat"):
+            strat._create_child_if_needed(bad) if bad not in strat.children else None
+        else:
+            strat.allocate(abs(amt), child=bad)
         root.update(idx[0])
         sec = strat.children[bad]
-        must_raise(lambda: sec.transact(5.0, price=pr[bad][0] * 1.01), "custom-price transact without bid/offer data", unchanged_root=root)
-        return {"nontrivial": True, "labels": labs}
+        cpx = pr[bad][0] * spec.get("custom_px", 1.01)
+        must_raise(lambda: sec.transact(spec.get("custom_q", 5.0), price=cpx), "custom-price transact (price %r) without bid/offer data" % cpx, unchanged_root=root)
+        return {"nontrivial": True, "labels": labs + (["custom_price_zero"] if cpx == 0 else [])}
     if klass == "nan_price_open_position":
         strat.allocate(abs(amt), child=bad)
         root.update(idx[0])
